@@ -12,7 +12,7 @@ git -C /repo checkout -- .
 cd /tmp
 W=${W:-8}
 for w in $(seq 0 $((W-1))); do
-  ( "$S/bin/simworker" -profile "$PROF" -from $((FROM+w)) -stride $W -n $((N/W)) -maxviol 5 > "$S/out.$w" 2> "$S/err.$w" ) &
+  ( "$S/bin/simworker" -profile "$PROF" -from $((FROM+w)) -stride $W -n $((N/W)) -maxviol 5 ${PROP:+-prop $PROP} > "$S/out.$w" 2> "$S/err.$w" ) &
 done
 wait
 cat "$S"/out.* | grep SUMMARY | cut -c9- | jq -s -c '{runs:(map(.runs)|add),nontrivial:(map(.nontrivial)|add),violations:(map(.violations)|add)}'
